@@ -7,6 +7,7 @@ import (
 	"path/filepath"
 	"sort"
 	"strings"
+	specs "tags.cncf.io/container-device-interface/specs-go"
 	"testing"
 	"time"
 
@@ -825,4 +826,98 @@ func TestC13ReadFaults(t *testing.T) {
 			}, "iofault:"+tg.ev.name, "iofault-on:"+what, "errno:"+errno)
 		}
 	})
+}
+
+// TestC13Vanish: a Spec file that vanishes between the listing of its
+// directory and its turn in the scan (removed by somebody else at that very
+// moment). The interleaving is made deterministic with a Spec validator hook
+// that removes the victim while an earlier file of the same scan is being
+// loaded. The fault concerns the victim only: every other file, in
+// particular those sorting after it, must resolve, in this and in the next
+// refresh.
+func TestC13Vanish(t *testing.T) {
+	rec := stats.For("C13", "vanish")
+	sc := newScratch(t)
+	defer cdi.SetSpecValidator(nil)
+	rapid.Check(t, func(t *rapid.T) {
+		root := sc.dir()
+		defer os.RemoveAll(root)
+		nDirs := rapid.IntRange(1, 2).Draw(t, "nDirs")
+		type entry struct{ dir, name, kind, dev string }
+		var entries []entry
+		var dirs []string
+		for di := 0; di < nDirs; di++ {
+			d := filepath.Join(root, fmt.Sprintf("d%d", di))
+			_ = os.MkdirAll(d, 0o755)
+			dirs = append(dirs, d)
+			for fi, n := 0, rapid.IntRange(2, 5).Draw(t, fmt.Sprintf("d%dFiles", di)); fi < n; fi++ {
+				e := entry{dir: d, name: fmt.Sprintf("%c-f%d.%s", 'a'+fi, fi, rapid.SampledFrom([]string{"json", "yaml"}).Draw(t, fmt.Sprintf("d%df%dExt", di, fi))),
+					kind: fmt.Sprintf("v%d.com/k%d", di, fi), dev: "x"}
+				_ = os.WriteFile(filepath.Join(d, e.name), []byte(fmt.Sprintf(`{"cdiVersion":"0.6.0","kind":"%s","devices":[{"name":"%s","containerEdits":{"env":["F=%d"]}}]}`, e.kind, e.dev, fi)), 0o644)
+				entries = append(entries, e)
+			}
+		}
+		// victim: not the first file of its directory; trigger: a file of the same directory sorting before it
+		var cands []int
+		for i := range entries {
+			if i > 0 && entries[i-1].dir == entries[i].dir {
+				cands = append(cands, i)
+			}
+		}
+		v := rapid.SampledFrom(cands).Draw(t, "victim")
+		first := v
+		for first > 0 && entries[first-1].dir == entries[v].dir {
+			first--
+		}
+		trig := rapid.IntRange(first, v-1).Draw(t, "trigger")
+		victimPath := filepath.Join(entries[v].dir, entries[v].name)
+		cache, _ := cdi.NewCache(cdi.WithSpecDirs(dirs...), cdi.WithAutoRefresh(false))
+		armed := true
+		cdi.SetSpecValidator(validatorFunc(func(s *specs.Spec) error {
+			if armed && s.Kind == entries[trig].kind {
+				armed = false
+				_ = os.Remove(victimPath)
+			}
+			return nil
+		}))
+		rerr := cache.Refresh()
+		cdi.SetSpecValidator(nil)
+		check := func(when string) {
+			for i, e := range entries {
+				q := e.kind + "=" + e.dev
+				d := cache.GetDevice(q)
+				if i == v {
+					if d != nil {
+						t.Fatalf("C13 violated (%s): %s was removed during the scan and still resolves", when, q)
+					}
+					continue
+				}
+				if d == nil {
+					t.Fatalf("C13 violated (%s): %s vanished between the listing of %s and its turn in the scan (removed while %s was being loaded); the untouched file %s no longer resolves (Refresh returned %v, error keys %v)",
+						when, entries[v].name, entries[v].dir, entries[trig].name, filepath.Join(e.dir, e.name), rerr, mapKeysErr(cache.GetErrors()))
+				}
+			}
+		}
+		check("refresh during which the file vanished")
+		rerr = cache.Refresh()
+		check("next refresh")
+		if rerr != nil || len(cache.GetErrors()) != 0 {
+			t.Fatalf("C13 violated: after the vanished file is gone for good every remaining file is valid, yet Refresh returns %v and the error report has %v", rerr, mapKeysErr(cache.GetErrors()))
+		}
+		c := map[string]any{"dirs": nDirs, "files": len(entries), "victim": v, "trigger": trig}
+		rec.Case(v < len(entries)-1 && entries[v+1].dir == entries[v].dir, canonJSON(c), func() any { return c }, "vanished-during-scan")
+	})
+}
+
+type validatorFunc func(*specs.Spec) error
+
+func (f validatorFunc) Validate(s *specs.Spec) error { return f(s) }
+
+func mapKeysErr(m map[string][]error) []string {
+	var out []string
+	for k := range m {
+		out = append(out, k)
+	}
+	sort.Strings(out)
+	return out
 }
